@@ -6,7 +6,6 @@ TITLE = "Garbage collection keeps retained results and never breaks reads"
 TRANSLATORS = []
 LEAN_MODULES = ["IsoVerif.Props.C03"]
 THEOREMS = [
-    "IsoVerif.Props.C03.C03_witness_lru_evicted",
     "IsoVerif.Props.C03.C03_witness_gc_panic_stale_retain",
     "IsoVerif.Props.C03.C03_witness_gc_panic_after_failed_call",
     "IsoVerif.Props.C03.C03_statement_false",
@@ -26,7 +25,7 @@ CASES = {"quick": 2400, "thorough": 120000}
 TECHNIQUE = _b.TECHNIQUE.replace("every call's value = from-scratch evaluation on the current sources",
                                  "after gc, a retained / LRU-recent top-level query (roots computed from the history alone) executes nothing and returns the same value; lookups do not fail; gc does not panic")
 PARTIAL = [
-    "C03_statement is false of today's code: the LRU eviction of a re-verified top-level query by its own dependencies (and its two consequences), the stale-retain collector panic and the collector panic after a failed call are open known findings with witness theorems",
+    "C03_statement is false of today's code: the collector panics on a retained reference to a node an earlier collection removed, and after a first call that panicked (open known findings with witness theorems). The LRU eviction of a re-verified top-level query by its own dependencies (and its two consequences) was repaired together with F22 (/repo 340414a)",
     "C03_retention_partial carries the retention clause only for histories in which nothing but the user's own successful top-level calls was pushed onto top_level_calls (explicit hypothesis pushes = userCalls); C03_gc_keeps_reachable / C03_lru_invariant hold for all histories but speak about the collector's OWN roots",
     "'served without re-execution' after gc follows from unchanged value+stamps only through C01/C02, which are themselves partial",
     "memory safety: intern_ref is modelled as a layer over the core model (allocation liveness of value boxes, re-pointing rules); C03_memsafe is false of today's code (F19, witness theorem, pointer identity re-confirmed on the real crate on every run) and no _partial memory-safety theorem is proved; intern_value and MemoRef parameters are not modelled; stacked-borrows / provenance rules beyond 'allocation alive' and Miri runs are out of scope of this check",
@@ -50,6 +49,6 @@ def check_distribution(dist, cases):
 
 LEVEL_TEXT = ("Kernel-checked: C03_statement (no collection panics; every collection keeps every node reachable from retained ∪ last-cap-distinct "
               "top-level queries with unchanged value, stamps and dependencies) over all programs and histories; witness theorems that it fails on "
-              "today's code (LRU eviction of a re-verified query by its own dependencies; two collector panics), replayed on the real crate; and the "
+              "today's code (two collector panics), replayed on the real crate; and the "
               "theorems listed in THEOREMS about the collector. Model = implementation op by op with capacities 1, 2, 3, 10.")
 LEVEL_NOTE = _b.LEVEL_NOTE + (" The harness never dereferences an interned reference: it compares addresses (pointer identity); the UB itself is not exhibited (no Miri).")
